@@ -291,3 +291,82 @@ def rule_where_sorted_with_operator(ctx, modules=None, rule="where-sorted-with-o
             r.ok(f.qualname, sample={"function": f.qualname, "term loops": [f"{w}, {g}" for w, g, _ in pairs]}, nontrivial=False)
     r.floor(n, floor, "loops over (sites, operator) terms / site parameters handed on in the local-expectation modules")
     return r
+
+
+def rule_gauge_fuse_total(ctx):
+    r = RuleResult(
+        "gauge-fuse-total",
+        "a routine that replaces the per-index gauges of a group of indices by one combined gauge (it pops them from `gauges` while "
+        "iterating over the group) takes exactly one factor per index: an index without an entry contributes the identity gauge of its "
+        "size — dropping it (`pop(ix, None)` guarded by `is not None` without a contributing else arm, or a filter in the comprehension) "
+        "leaves a combined gauge smaller than the fused bond",
+    )
+    n = 0
+    for f in ctx.prog.all_functions(nested=False):
+        if f.is_alias or isinstance(f.node, ast.Lambda) or not f.module.name.startswith("quimb.tensor") or "gauges" not in f.params:
+            continue
+        pops = [c for c in _own_walk(f.node) if isinstance(c, ast.Call) and isinstance(c.func, ast.Attribute) and c.func.attr == "pop"
+                and isinstance(c.func.value, ast.Name) and c.func.value.id == "gauges" and c.args and isinstance(c.args[0], ast.Name)]
+        if not pops:
+            continue
+        parents = {}
+        for x in _own_walk(f.node):
+            for ch in ast.iter_child_nodes(x):
+                parents[ch] = x
+        for c in pops:
+            key = c.args[0].id
+            # the iteration that binds the key
+            node, it = c, None
+            while node in parents:
+                node = parents[node]
+                if isinstance(node, (ast.ListComp, ast.GeneratorExp)):
+                    g = next((g for g in node.generators if isinstance(g.target, ast.Name) and g.target.id == key), None)
+                    if g is not None:
+                        it = (node, g)
+                        break
+                if isinstance(node, ast.For) and isinstance(node.target, ast.Name) and node.target.id == key:
+                    it = (node, None)
+                    break
+            if it is None:
+                continue
+            loop, gen = it
+            # only groups that are *combined* into one stored gauge
+            stores = [a for a in _own_walk(f.node) if isinstance(a, ast.Assign) and any(isinstance(t, ast.Subscript) and isinstance(t.value, ast.Name) and t.value.id == "gauges" for t in a.targets)]
+            if not stores:
+                continue
+            n += 1
+            q = f"{f.qualname}:pop({key})"
+            dropped = None
+            if gen is not None:
+                if gen.ifs:
+                    dropped = f"the comprehension filters the group (`if {src_of(gen.ifs[0])[:30]}`)"
+                else:
+                    elt = loop.elt
+                    if isinstance(elt, ast.IfExp) and (isinstance(elt.orelse, ast.Constant) and elt.orelse.value is None):
+                        dropped = "the else arm of the element is None"
+                    if len(c.args) > 1 and isinstance(c.args[1], ast.Constant) and c.args[1].value is None:
+                        dropped = "missing entries become None"
+            else:
+                has_default_none = len(c.args) > 1 and isinstance(c.args[1], ast.Constant) and c.args[1].value is None
+                if has_default_none:
+                    # the popped value: tested against None with no contributing else arm?
+                    tgt = parents.get(c)
+                    pname = tgt.targets[0].id if isinstance(tgt, ast.Assign) and isinstance(tgt.targets[0], ast.Name) else None
+                    for st in ast.walk(loop):
+                        if isinstance(st, ast.If) and pname and any(isinstance(y, ast.Name) and y.id == pname for y in ast.walk(st.test)) \
+                                and any(isinstance(y, ast.Constant) and y.value is None for y in ast.walk(st.test)):
+                            if not st.orelse:
+                                dropped = f"`if {src_of(st.test)[:30]}` has no else arm: an index without a gauge contributes nothing"
+                # a membership guard without else
+                for st in ast.walk(loop):
+                    if isinstance(st, ast.If) and not st.orelse and any(y is c for y in ast.walk(st)) and isinstance(st.test, ast.Compare) \
+                            and isinstance(st.test.ops[0], ast.In) and isinstance(st.test.left, ast.Name) and st.test.left.id == key:
+                        dropped = f"`if {src_of(st.test)[:30]}` has no else arm: an index without a gauge contributes nothing"
+            if dropped:
+                r.bad(Finding("gauge-fuse-total", f.qualname,
+                              f"the gauges of the group iterated by `{key}` are combined into one stored gauge, but {dropped}: the combined gauge is smaller than the fused bond "
+                              "whenever one index of the group has no entry", where=f"{f.module.relpath}:{c.lineno}", operand=f"pop:{key}"))
+            else:
+                r.ok(q, sample={"function": f.qualname, "group key": key, "one factor per index": True})
+    r.floor(n, 1, "gauge groups combined into one gauge")
+    return r
